@@ -433,3 +433,98 @@ def uw6(P, C):
         C.ob("UW-6", name, "no-absolute-tolerance", not bad, f.loc(bad[0][0]) if bad else f.where(),
              "no floating constant other than 0 and 1; floating comparisons only against 0 or runtime values" if not bad else
              "absolute constant %s at %s: the result now depends on the units of the knot axis" % (bad[0][1], f.loc(bad[0][0])))
+
+
+def uw7(P, C):
+    """UW-7: the new knot vector is the sorted sequence of ALL pairwise sums of old and kernel knots."""
+    C.rule("UW-7", "convolve's new knot field: every (old knot, kernel knot) pair contributes old + kernel (one store in the counting nest of "
+           "UW-2), and the whole field [rho, rho + count) is sorted by one std::sort / std::stable_sort — or by merging each further run into "
+           "the WHOLE sorted prefix — before anything reads it: the blossoms, the coefficient count and the stored knots all assume an "
+           "ascending field", floor=2)
+    f, _post, _others, counter = convolve_shape(P)
+    fills = []
+    for i in f.walk():
+        ap = ts.assign_parts(f, i)
+        if not ap or ap[1] is None or f.nodes[i].get("op") != "=":
+            continue
+        l = f.strip(ap[0])
+        if f.k(l) != "ArraySubscriptExpr":
+            continue
+        idx = f.strip(f.nodes[l]["ch"][1])
+        if counter and f.k(idx) == "UnaryOperator" and f.nodes[idx].get("op") == "++" and f.k(f.strip(f.nodes[idx]["ch"][0])) == "DeclRefExpr" and \
+                f.nodes[f.strip(f.nodes[idx]["ch"][0])]["decl"]["id"] == counter[0]:
+            fills.append(i)
+    ok = False
+    det = "no store indexed by the knot counter"
+    rho = None
+    if len(fills) == 1:
+        i = fills[0]
+        ap = ts.assign_parts(f, i)
+        l = f.strip(ap[0])
+        rb = f.strip(f.nodes[l]["ch"][0])
+        rho = f.nodes[rb]["decl"]["id"] if f.k(rb) == "DeclRefExpr" else None
+        loops = [a for a in f.ancestors(i) if f.k(a) == "ForStmt"]
+        cls = [canonical_loop(f, L) for L in loops]
+        rhs = f.strip(ap[1])
+        shape = False
+        if f.k(rhs) == "BinaryOperator" and f.nodes[rhs]["op"] == "+" and len(loops) == 2 and all(cls):
+            a, b = (f.strip(x) for x in f.nodes[rhs]["ch"])
+            ta, tb = f.alpha(a), f.alpha(b)
+            texts = sorted([ta[0].replace(" ", ""), tb[0].replace(" ", "")])
+            # knots[dim][i] + conv_knots[j], i the outer or inner loop variable, j the other
+            ivs = {cls[0][0], cls[1][0]}
+            shape = texts == sorted(["knots[$0][v0]", "$1[v0]"]) and {ta[1][0], tb[1][0]} == ivs
+        ok = shape and rho is not None
+        det = "rho[count++] = knots[dim][i] + kernel[j] over all (i, j): %s" % ok
+    C.ob("UW-7", "convolve", "all-pairwise-sums", ok, f.loc(fills[0]) if fills else f.where(), det)
+    ok2 = False
+    det2 = "the knot field is not identified"
+    if rho is not None and counter:
+        cnt = counter[0]
+        sorts = []
+        for i, cal in f.calls():
+            if not cal or not cal["qname"].startswith("std::"):
+                continue
+            a = f.args(i)
+            if cal["name"] in ("sort", "stable_sort") and len(a) >= 2:
+                t0, t1 = f.alpha(a[0]), f.alpha(a[1])
+                if t0[0] == "v0" and t0[1] == [rho] and t1[0].replace(" ", "") == "(v0+v1)" and t1[1] == [rho, cnt] and len(a) == 2:
+                    sorts.append((i, "sort"))
+            if cal["name"] == "inplace_merge" and len(a) == 3:
+                # merge(rho, rho + i*n, rho + (i+1)*n) for i = 1 .. nknots-1: each run is merged into the whole prefix
+                t0 = f.alpha(a[0])
+                L = next((x for x in f.ancestors(i) if f.k(x) == "ForStmt"), None)
+                if t0[0] == "v0" and t0[1] == [rho] and L is not None:
+                    p1 = core.poly(f, a[1]) - core.poly(f, a[0])
+                    p2 = core.poly(f, a[2]) - core.poly(f, a[0])
+                    lv = f.nodes[L]
+                    vname = f.alpha(lv["inc"])[1]
+                    iname = f.var_name(vname[0]) if vname else None
+                    nn = f.params[2]["name"]
+                    whole = iname is not None and p1 == Poly({tuple(sorted((iname, nn))): 1}) and p2 == Poly({tuple(sorted((iname, nn))): 1}) + Poly.atom(nn)
+                    ini = f.render(lv["init"]).replace(" ", "")
+                    cond = f.alpha(lv["cond"])[0].replace(" ", "")
+                    if whole and ini.endswith("=1") and cond in ("(v0<nknots[$0])",):
+                        sorts.append((i, "merge into the whole prefix"))
+        pos = f.node_positions()
+        dom = f.dominators()
+
+        def at(x):
+            while x >= 0 and x not in pos:
+                x = f.parent[x]
+            return pos.get(x)
+        if len(sorts) == 1:
+            si = sorts[0][0]
+            ps = at(si)
+            pf = at(fills[0])
+            # every read of the field other than the sort itself comes after the sort
+            reads = [x for x in f.walk() if f.k(x) == "DeclRefExpr" and f.nodes[x]["decl"].get("id") == rho and x not in set(f.walk(si)) and
+                     x not in set(f.walk(fills[0])) and not (f.k(f.parent[x]) == "DeclStmt")]
+            late = [x for x in reads if not (at(x) and ps and ((at(x)[0] == ps[0] and ps[1] < at(x)[1]) or (at(x)[0] != ps[0] and ps[0] in dom.get(at(x)[0], ()))))]
+            after_fill = pf and ps and pf[0] != ps[0] and ps[0] in f.reachable_blocks(pf[0]) and pf[0] not in f.reachable_blocks(ps[0])
+            ok2 = not late and bool(after_fill)
+            det2 = "%s of [rho, rho + count) after the fill, before every other use of the field (%d uses): %s" % (sorts[0][1], len(reads), ok2)
+        else:
+            det2 = "expected exactly one sort of the whole field [rho, rho + count); found %d (a pass that merges each run only with its neighbour " \
+                   "does not sort the field when a kernel spans several knot intervals)" % len(sorts)
+    C.ob("UW-7", "convolve", "whole-field-sorted", ok2, f.where(), det2)
